@@ -109,8 +109,11 @@ func newType(typeName string, old ast.LlvmNode, index map[string]*ast.TypeDef, t
 		track[typeName] = true
 		newIdent := localIdent(old.Name())
 		newName := getTypeName(newIdent)
-		newTyp := index[newName].Typ()
-		return newType(newName, newTyp, index, track)
+		def, ok := index[newName]
+		if !ok {
+			return nil, errors.Errorf("unable to locate type definition of named type %q", enc.TypeName(newName))
+		}
+		return newType(newName, def.Typ(), index, track)
 	default:
 		panic(fmt.Errorf("support for type %T not yet implemented", old))
 	}
